@@ -95,6 +95,9 @@ def recordByName : String → Option Con
   | "radiometric" => some Gen.radiometricDataRecord
   | "dqs" => some Gen.dataQualitySummaryRecord
   | "record5" => some Gen.facilityRelatedData5Record
+  | "platform_position" => some Gen.platformPositionRecord
+  | "map_projection" => some Gen.mapProjectionRecord
+  | "attitude" => some Gen.attitudeRecord
   | "lines10" => some Gen.signalDataRecord
   | "lines11" => some Gen.processedDataRecord
   | _ => none
@@ -275,6 +278,9 @@ def step (j : Json) : Json :=
         | "radiometric" => optG (transformRadiometricData pv)
         | "dqs" => optG (transformDataQualitySummary pv)
         | "record5" => optG (transformRecord5 realLeafFns pv)
+        | "platform_position" => optG (transformPlatformPosition realLeafFns2 pv)
+        | "map_projection" => optG (transformMapProjection realLeafFns2 pv)
+        | "attitude" => optG (transformAttitude realLeafFns2 pv)
         | _ => match pv with
           | .list recs => Json.mkObj [("ok", grpJson (transformLineMetadata recs))]
           | _ => Json.mkObj [("bad", Json.null)]
